@@ -516,7 +516,10 @@ static int run_c14_long(Prng &r, uint64_t pair_index) {
   if (pairs.empty()) { Params dp; for (int k = 0; k < K_COUNT; k++) for (int o : ops) if (supported(k, callop_to_op(o), dp)) pairs.push_back({k, o}); }
   const int kind = pairs[pair_index % pairs.size()].first, op = pairs[pair_index % pairs.size()].second;
   Triple t; int guard = 0;
-  do { t = draw_triple(r, kind); } while ((t.ss.v.size() > 40 || t.ss.total() > 700 || t.ss.v.size() < 3 || !supported(kind, callop_to_op(op), t.p)) && ++guard < 400);
+  // small inputs of short strings only: 65 800 queries have to stay cheap for every kind (one XBW query over 150-byte
+  // strings costs milliseconds), and the bound has to be a function of the input, not of a measured time
+  auto longest = [](const StringSet &ss) { size_t m = 0; for (auto &x : ss.v) m = std::max(m, x.size()); return m; };
+  do { t = draw_triple(r, kind); } while ((t.ss.v.size() > 40 || t.ss.total() > 700 || t.ss.v.size() < 3 || longest(t.ss) > 24 || !supported(kind, callop_to_op(op), t.p)) && ++guard < 400);
   g_kinds = kind_name(t.kind);
   if (guard >= 400) { emit("precondition_failed", "no_small_set_drawn", ""); return 0; }
   Source src; src.loaded = t.kind == K_XBW ? true : r.chance(1, 2); src.opt = takes_load_option(t.kind) ? (uint)r.range(1, 3) : 1;
@@ -559,8 +562,12 @@ static int run_c14_long(Prng &r, uint64_t pair_index) {
   std::vector<size_t> ok;
   for (size_t i = 0; i < pool; i++) { bool good = true; for (size_t j = 0; j < cand[i].size(); j++) if (pc.skip[start[i] + j]) good = false; if (good) ok.push_back(i); }
   if (ok.empty()) { delete d; emit("precondition_failed", "reference_call_did_not_survive", triple_str(t)); return 0; }
-  // order: the filler is the last survivor, A the first, C the middle one (they coincide when few survive)
+  // A the first survivor, C the middle one (they coincide when few survive)
   size_t ia = ok.front(), ib = ok.back(), ic = ok[ok.size() / 2];
+  // the filler is asked 65 000 times: take the survivor with the shortest argument (XBW spends 0.6 ms on an 80-byte prefix)
+  for (size_t i : ok) if (cand[i][0].arg.size() < cand[ib][0].arg.size()) ib = i;
+  if (ia == ib && ok.size() > 1) ia = ok[1] == ib ? ok[0] : ok[1];
+  if (ic == ib && ok.size() > 2) for (size_t i : ok) if (i != ib && i != ia) { ic = i; break; }
   std::vector<Call> A = cand[ia], B = cand[ib], C = cand[ic], AB = A; AB.insert(AB.end(), B.begin(), B.end()); AB.insert(AB.end(), C.begin(), C.end());
   g_spec += "|a=" + script_str(A) + "|b=" + script_str(B) + "|c=" + script_str(C);
   Probe pr; pr.run.digests.clear();
@@ -572,7 +579,7 @@ static int run_c14_long(Prng &r, uint64_t pair_index) {
   ClientState cs;
   for (int n = 1; n <= reps; n++) {
     // heartbeat: the supervisor's hang detector is on wall-clock silence, and the CPU-time budget of a step is per segment
-    if ((n & 2047) == 0) begin("var", "long-history");
+    if ((n & 511) == 0) begin("var", "long-history");
     const std::vector<Call> &Q = (n == 3 || n == 259 || n == 65795) ? A : n == 65536 ? C : B;
     size_t base = (&Q == &A) ? 0 : (&Q == &B) ? A.size() : A.size() + B.size();
     for (size_t i = 0; i < Q.size(); i++) {
